@@ -46,7 +46,7 @@ CHECKS = {
         "text": "Premises of a stated inductive invariant (emitted bytes since last request <= 32*(counter-1); emission only when counter <= limit; limit in [1,32768]) discharged over ALL "
                 "writes of the two budget fields in the linked module (census of stores, mem intrinsics, wipes and callee outputs in every function that takes the PRNG state) and over every "
                 "emission site of generate: per-iteration guard loaded from the state inside the loop, reseed on the exceeding edge, <= 32 bytes and one counter increment per emission; "
-                "interval image of the limit clamp over the partition of its parameter (a proof when it lies within [1, 32768]; an interval that sticks out is an over-approximation and no witness: not decided) plus exact evaluation at the boundary representatives, the compared constants and the wrap points of the arithmetic (the refuter). The automatic reseed is known as a call of tinyjambu_prng_reseed; an entropy request made by generate itself is not recognised (exit 2).",
+                "interval image of the limit clamp over the partition of its parameter (a proof when it lies within [1, 32768]; an interval that sticks out is an over-approximation and no witness: not decided) plus exact evaluation at the boundary representatives, the compared constants and the wrap points of the arithmetic (the refuter). A call of the documented setter on the state counts as a write of the limit (in init_user with the constant 1024). The automatic reseed is known as a call of tinyjambu_prng_reseed; an entropy request made by generate itself is not recognised (exit 2).",
         "note": "The induction itself is the argument in DESIGN.md; the checker discharges its premises. 2^32 counter wrap is assumed away.",
         "technique": "whole-module write census + dominance/must-pass rules + interval abstract interpretation of the clamp",
     },
